@@ -21,7 +21,7 @@ NSA == <<"s", "a">>
 NSB == <<"s", "b">>
 
 Docs2 == {<<>>, <<"d">>}
-Docs3 == {<<>>, <<"d">>, <<"e">>}
+Docs3 == {<<>>, <<"d">>, <<"e">>, <<"">>}      \* <<"">>: a comment that is the empty string is a comment like any other (seed C09-11)
 OptMap(S) == {<<>>} \cup {MapOf({n}) : n \in S}
 
 (* one-key-per-level universe, side-specific target name t *)
